@@ -2368,13 +2368,13 @@ class Transport(threading.Thread, ClosingContextManager):
                 self._log(DEBUG, "EOF in transport thread")
                 self.saved_exception = e
             except socket.error as e:
-                if type(e.args) is tuple:
-                    if e.args:
-                        emsg = "{} ({:d})".format(e.args[1], e.args[0])
-                    else:  # empty tuple, e.g. socket.timeout
-                        emsg = str(e) or repr(e)
+                if type(e.args) is tuple and len(e.args) >= 2:
+                    emsg = "{} ({})".format(e.args[1], e.args[0])
                 else:
-                    emsg = e.args
+                    # no (errno, text) pair: socket.timeout(), or an error
+                    # raised with a bare message by a socket-like object
+                    # (such as a Channel used as the transport's socket)
+                    emsg = str(e) or repr(e)
                 self._log(ERROR, "Socket exception: " + emsg)
                 self.saved_exception = e
             except Exception as e:
